@@ -26,6 +26,9 @@ type Case struct {
 	TmplName gen.Str    `json:"tmpl,omitempty"`
 	RowClass bool       `json:"rowclass,omitempty"`
 	Renders  int        `json:"renders,omitempty"`
+	// Gens, if set, gives the row-class generator in force for each render: 0 none, 1 generator "r", 2 generator "s"
+	// (replaced, installed or removed between renders on the same wrapper); it overrides RowClass/Renders.
+	Gens []int `json:"gens,omitempty"`
 }
 
 type parser struct {
@@ -93,15 +96,15 @@ func describe(t oracle.HTok) string {
 	return "<" + t.Name + ">"
 }
 
-func rowClassAttr(on bool, n int) [][2]string {
-	if !on {
+func rowClassAttr(prefix string, n int) [][2]string {
+	if prefix == "" {
 		return nil
 	}
-	return [][2]string{{"class", fmt.Sprintf("r%d", n)}}
+	return [][2]string{{"class", fmt.Sprintf("%s%d", prefix, n)}}
 }
 
 // CheckOutput verifies the skeleton and every text against the model.
-func CheckOutput(out string, c Case, m *gen.Model) *ev.Violation {
+func CheckOutput(out string, c Case, m *gen.Model, prefix string) *ev.Violation {
 	toks, err := oracle.TokenizeHTML(out)
 	if err != nil {
 		return ev.V("output does not tokenise: %v\n%s", err, out)
@@ -124,7 +127,7 @@ func CheckOutput(out string, c Case, m *gen.Model) *ev.Violation {
 		run(func() *ev.Violation { return p.tag(true, "caption", nil) })
 	}
 	run(func() *ev.Violation { return p.tag(false, "thead", nil) })
-	run(func() *ev.Violation { return p.tag(false, "tr", rowClassAttr(c.RowClass, 0)) })
+	run(func() *ev.Violation { return p.tag(false, "tr", rowClassAttr(prefix, 0)) })
 	for i := range m.Header {
 		txt := m.Header[i].Text
 		run(func() *ev.Violation { return p.tag(false, "th", nil) })
@@ -134,12 +137,12 @@ func CheckOutput(out string, c Case, m *gen.Model) *ev.Violation {
 	run(func() *ev.Violation { return p.tag(true, "tr", nil) })
 	run(func() *ev.Violation { return p.tag(true, "thead", nil) })
 	run(func() *ev.Violation { return p.tag(false, "tbody", nil) })
-	for _, r := range m.Rows {
+	for ri, r := range m.Rows {
 		if r.Sep {
 			continue
 		}
-		pos := r.Pos
-		run(func() *ev.Violation { return p.tag(false, "tr", rowClassAttr(c.RowClass, pos)) })
+		pos := ri + 1
+		run(func() *ev.Violation { return p.tag(false, "tr", rowClassAttr(prefix, pos)) })
 		for i := range r.Cells {
 			txt := r.Cells[i].Text
 			run(func() *ev.Violation { return p.tag(false, "td", nil) })
@@ -172,44 +175,78 @@ func CheckCase(c Case) *ev.Violation {
 	} else {
 		w = html.Wrap(t)
 	}
+	gen.ScrambleRowsCopy(t) // the caller may do what it likes with the copy it was handed
 	w.Id, w.Class, w.Caption, w.TemplateName = string(c.Id), string(c.Class), string(c.Caption), string(c.TmplName)
 	var calls []int
-	if c.RowClass {
-		ctx := &calls
-		w.SetRowClassGenerator(func(n int, x interface{}) template.HTMLAttr {
+	mkGen := func(prefix string) func(int, interface{}) template.HTMLAttr {
+		return func(n int, x interface{}) template.HTMLAttr {
 			p := x.(*[]int)
 			*p = append(*p, n)
-			return template.HTMLAttr(fmt.Sprintf("r%d", n))
-		}, ctx)
+			return template.HTMLAttr(fmt.Sprintf("%s%d", prefix, n))
+		}
+	}
+	gens := c.Gens
+	if len(gens) == 0 {
+		renders := c.Renders
+		if renders < 1 {
+			renders = 1
+		}
+		for i := 0; i < renders; i++ {
+			if c.RowClass {
+				gens = append(gens, 1)
+			} else {
+				gens = append(gens, 0)
+			}
+		}
 	}
 	wantCalls := []int{0}
-	for _, r := range m.DataRows() {
-		wantCalls = append(wantCalls, r.Pos)
+	for ri, r := range m.Rows {
+		if !r.Sep {
+			wantCalls = append(wantCalls, ri+1)
+		}
 	}
-	renders := c.Renders
-	if renders < 1 {
-		renders = 1
-	}
-	var first string
-	for i := 0; i < renders; i++ {
+	var prevOut string
+	prevGen := -1
+	for i, g := range gens {
+		prefix := ""
+		if g != prevGen {
+			switch g {
+			case 0:
+				w.SetRowClassGenerator(nil, nil)
+			case 1:
+				prefix = "r"
+				w.SetRowClassGenerator(mkGen("r"), &calls)
+			default:
+				prefix = "s"
+				w.SetRowClassGenerator(mkGen("s"), &calls)
+			}
+		} else {
+			prefix = map[int]string{0: "", 1: "r", 2: "s"}[g]
+		}
+		if g == 2 {
+			prefix = "s"
+		} else if g == 1 {
+			prefix = "r"
+		}
 		calls = calls[:0]
 		out, err := w.Render()
 		if err != nil {
 			return ev.V("render %d failed: %v", i+1, err)
 		}
-		if c.RowClass {
+		if g != 0 {
 			if fmt.Sprint(calls) != fmt.Sprint(wantCalls) {
-				return ev.V("render %d: row-class generator called with %v, expected %v", i+1, calls, wantCalls)
+				return ev.V("render %d: row-class generator %q called with %v, expected %v", i+1, prefix, calls, wantCalls)
 			}
+		} else if len(calls) != 0 {
+			return ev.V("render %d: a removed row-class generator was still called: %v", i+1, calls)
 		}
-		if v := CheckOutput(out, c, m); v != nil {
+		if v := CheckOutput(out, c, m, prefix); v != nil {
 			return ev.V("render %d: %s", i+1, v.Msg)
 		}
-		if i == 0 {
-			first = out
-		} else if out != first {
-			return ev.V("render %d differs from render 1 on the same wrapper", i+1)
+		if g == prevGen && out != prevOut {
+			return ev.V("render %d differs from render %d on the same wrapper", i+1, i)
 		}
+		prevOut, prevGen = out, g
 		var b bytes.Buffer
 		calls = calls[:0]
 		if err := w.RenderTo(&b); err != nil || b.String() != out {
@@ -278,8 +315,18 @@ func Classify(c Case) (bool, interface{}, []string) {
 	if c.RowClass {
 		add("row-class-generator")
 	}
-	if c.Renders > 1 {
+	if c.Renders > 1 || len(c.Gens) > 1 {
 		add("re-render")
+	}
+	for i := 1; i < len(c.Gens); i++ {
+		if c.Gens[i] != c.Gens[i-1] {
+			add("generator-changed-between-renders")
+		}
+	}
+	for _, op := range c.Script.Ops {
+		if op.K == "readd" {
+			add("row-added-twice")
+		}
 	}
 	return nt, nil, cl
 }
